@@ -187,6 +187,15 @@ def step64 (st : St) (cmd : List String) (got : String) : Option (St × Verdict)
     match vals64? vs with
     | some l => some (mut64 st x got (fun s => BSet.union s (ofVals l)))
     | none => some (skip64 st got)
+  | ["addstride64", x, a, b, c] =>
+    match val64? a, val64? b, c.toNat? with
+    | some start, some step, some cnt =>
+      if cnt > 1048576 || step == 0 || (cnt > 0 && (U64 - 1 - start) / step < cnt - 1) then some (skip64 st got)
+      else some (mut64 st x got (fun s => BSet.union s (ofVals ((List.range cnt).map fun i => start + i * step))))
+    | _, _, _ => some (skip64 st got)
+  | "sermany64" :: xs =>
+    if xs.isEmpty || !(xs.all fun x => (st.bm64[x]?).isSome) then some (skip64 st got)
+    else some (st, expect "ok" got)
   | ["addr64", x, a, b] =>
     match val64? a, val64? b with
     | some lo, some hi => some (mut64 st x got (fun s => BSet.addRange s lo hi))
